@@ -82,10 +82,15 @@ class Inliner:
         self.max_depth = max_depth
         self.max_blocks = max_blocks
 
-    def view(self, body):
+    def view(self, body, upvar_consts=None):
+        """upvar_consts: {captured-variable index: constant operand} — read a closure for one particular value of
+        what it captured (a handler factory called with a fn item)"""
         j = copy.deepcopy(body.j)
         j['id'] = body.id + '#inl'
         j['inlined'] = []
+        self.upvar_consts = upvar_consts or {}
+        if self.upvar_consts:
+            j['inlined'].append('specialised:' + ','.join('%d=%s' % (k, (v.get('fn') or {}).get('def', v.get('s'))) for k, v in sorted(self.upvar_consts.items())))
         progress = True
         depth = 0
         stack = {body.id}
@@ -102,9 +107,14 @@ class Inliner:
                 tmp = Body(j, body.facts)
                 c = Call(tmp, b, blk['term'])
                 chain = origin_of_block.get(b, set()) | stack
-                done = self._inline_helper(j, b, c, chain, origin_of_block) or self._inline_combinator(j, tmp, b, c, chain, origin_of_block)
+                done = (self._inline_helper(j, b, c, chain, origin_of_block) or self._inline_combinator(j, tmp, b, c, chain, origin_of_block)
+                        or self._resolve_indirect(j, tmp, b, c, chain, origin_of_block)
+                        or self._resolve_fn_trait(j, tmp, b, c, chain, origin_of_block))
                 if done:
                     progress = True
+        if j['inlined']:
+            fold_const_switches(j, body.facts)
+            thread_known_variants(j)
         v = Body(j, body.facts)
         v.orig_id = body.id
         v.is_view = True
@@ -118,12 +128,13 @@ class Inliner:
             return False
         return True
 
-    def _copy_in(self, j, g, chain, origin_of_block):
-        """append a renumbered copy of g's locals and blocks; returns (local offset, block offset, [copied return block ids])"""
+    def _copy_in(self, j, g, chain, origin_of_block, ret_to=None):
+        """append a renumbered copy of g's locals and blocks; returns (local offset, block offset, [copied return block ids]).
+        ret_to: a local of the caller that stands for g's return place (the call wrote its result to that whole local)"""
         offL = len(j['locals'])
         offB = len(j['blocks'])
         j['locals'].extend(copy.deepcopy(g.j['locals']))
-        lmap = lambda l: l + offL
+        lmap = (lambda l: l + offL) if ret_to is None else (lambda l: ret_to if l == 0 else l + offL)
         bmap = lambda b: b + offB
         rets = []
         for i, blk in enumerate(g.j['blocks']):
@@ -142,13 +153,14 @@ class Inliner:
         blk = j['blocks'][b]
         t = blk['term']
         span = blk['span']
-        offL, offB, rets = self._copy_in(j, g, chain, origin_of_block)
+        direct = t['dest']['l'] if not t['dest']['p'] else None
+        offL, offB, rets = self._copy_in(j, g, chain, origin_of_block, ret_to=direct)
         for k, a in enumerate(t['args']):
             if k + 1 <= g.arg_count:
                 blk['stmts'].append(_assign(_pl(offL + 1 + k, ty=g.locals[1 + k]['ty']), _use(a), span))
-        # return block: dest = move ret ; goto target
+        # return block: dest = move ret ; goto target   (no copy when the helper wrote the caller's local directly)
         retb = len(j['blocks'])
-        j['blocks'].append({'cleanup': False, 'stmts': [_assign(t['dest'], _use(_mv(_pl(offL, ty=g.locals[0]['ty']))), span)],
+        j['blocks'].append({'cleanup': False, 'stmts': ([] if direct is not None else [_assign(t['dest'], _use(_mv(_pl(offL, ty=g.locals[0]['ty']))), span)]),
                             'term': ({'k': 'goto', 'target': t['target']} if t['target'] is not None else {'k': 'unreachable'}), 'span': span})
         origin_of_block[retb] = origin_of_block.get(b, set())
         for r in rets:
@@ -167,17 +179,19 @@ class Inliner:
         if clo_arg >= len(t['args']):
             return False
         co = single_origin(trace_operand(tmp, t['args'][clo_arg], through_calls=set()))
-        if co is None or co.kind != 'agg' or co.data[2]['agg'] != 'closure':
-            return False
-        g = self.prog.by_id.get(co.data[2]['closure'])
-        if g is None or g.id in chain or g.n > self.max_blocks:
-            return False
+        g = None
+        if co is not None and co.kind == 'agg' and co.data[2]['agg'] == 'closure':
+            g = self.prog.by_id.get(co.data[2]['closure'])
+            if g is None or g.id in chain or g.n > self.max_blocks:
+                return False
         recv = op_place(t['args'][0])
         if recv is None:
             return False
         span = blk['span']
         adt = OPTION if kind == 'opt' else RESULT
         variants = ('None', 'Some') if kind == 'opt' else ('Ok', 'Err')
+        if g is None:
+            return self._apply_opaque(j, b, t, spec, recv, adt, variants, origin_of_block)
         offL, offB, rets = self._copy_in(j, g, chain, origin_of_block)
         # discriminant temp
         dl = len(j['locals'])
@@ -224,7 +238,7 @@ class Inliner:
         else:
             return False
         tgt = {'k': 'goto', 'target': t['target']} if t['target'] is not None else {'k': 'unreachable'}
-        j['blocks'].append({'cleanup': False, 'stmts': [_assign(dest, rv, span)], 'term': tgt, 'span': span})
+        j['blocks'].append({'cleanup': False, 'stmts': [_assign(dest, rv, span)], 'term': dict(tgt), 'span': span})
         # RET: wrap the closure's result
         retv = _mv(_pl(offL, ty=g.locals[0]['ty']))
         if on_call == 'use':
@@ -232,7 +246,7 @@ class Inliner:
         else:
             wv = on_call[5:]
             rrv = _agg(OPTION if wv in ('Some', 'None') else RESULT, wv, [retv])
-        j['blocks'].append({'cleanup': False, 'stmts': [_assign(dest, rrv, span)], 'term': tgt, 'span': span})
+        j['blocks'].append({'cleanup': False, 'stmts': [_assign(dest, rrv, span)], 'term': dict(tgt), 'span': span})
         for x in (pre, skip, retb):
             origin_of_block[x] = origin_of_block.get(b, set())
         for r in rets:
@@ -241,3 +255,364 @@ class Inliner:
         blk['term'] = {'k': 'switch', 'discr': _mv(_pl(dl, ty='isize')), 'dty': 'isize',
                        'targets': [[cv, pre]], 'otherwise': skip}
         return True
+
+
+    def _fn_value(self, tmp, op, depth=0):
+        """('const', operand) / ('closure', body, place) for a fn-pointer operand whose value is known here"""
+        if op['k'] == 'const':
+            return ('const', op) if op.get('fn') else None
+        o = single_origin(trace_operand(tmp, op, through_calls=set()))
+        if o is None:
+            return None
+        if o.proj and o.kind != 'param':
+            return None
+        if o.kind == 'const' and isinstance(o.data, dict) and o.data.get('fn'):
+            return ('const', o.data)
+        if o.kind == 'param' and o.data == 1 and tmp.is_closure and len(o.proj) == 1 and o.proj[0][0] == 'f' and o.proj[0][1] in self.upvar_consts:
+            return ('const', self.upvar_consts[o.proj[0][1]])
+        if o.kind == 'agg' and o.data[2].get('agg') == 'closure' and not o.data[2]['ops']:
+            g = self.prog.by_id.get(o.data[2]['closure'])
+            stmt = tmp.blocks[o.data[0]]['stmts'][o.data[1]]
+            return ('closure', g, stmt['pl']) if g is not None else None
+        return None
+
+    def _resolve_indirect(self, j, tmp, b, c, chain, origin_of_block):
+        """a call through a fn pointer whose value is a known fn item or non-capturing closure of this body"""
+        if c.fn is not None:
+            return False
+        blk = j['blocks'][b]
+        t = blk['term']
+        fv = self._fn_value(tmp, t['func'])
+        if fv is None:
+            return False
+        if fv[0] == 'const':
+            t['func'] = fv[1]
+            j['inlined'].append('fnptr:' + fv[1]['fn']['def'])
+            return True
+        g, clo_pl = fv[1], fv[2]
+        if g.id in chain or g.n > self.max_blocks:
+            return False
+        span = blk['span']
+        direct = t['dest']['l'] if not t['dest']['p'] else None
+        offL, offB, rets = self._copy_in(j, g, chain, origin_of_block, ret_to=direct)
+        env_ty = g.locals[1]['ty'] if g.arg_count >= 1 else ''
+        if g.arg_count >= 1:
+            if env_ty.startswith('&'):
+                blk['stmts'].append(_assign(_pl(offL + 1, ty=env_ty), {'k': 'ref', 'mut': False, 'pl': clo_pl}, span))
+            else:
+                blk['stmts'].append(_assign(_pl(offL + 1, ty=env_ty), _use({'k': 'copy', 'pl': clo_pl}), span))
+        for k, a in enumerate(t['args']):
+            if k + 2 <= g.arg_count:
+                blk['stmts'].append(_assign(_pl(offL + 2 + k, ty=g.locals[2 + k]['ty']), _use(a), span))
+        retb = len(j['blocks'])
+        j['blocks'].append({'cleanup': False, 'stmts': ([] if direct is not None else [_assign(t['dest'], _use(_mv(_pl(offL, ty=g.locals[0]['ty']))), span)]),
+                            'term': ({'k': 'goto', 'target': t['target']} if t['target'] is not None else {'k': 'unreachable'}), 'span': span})
+        origin_of_block[retb] = origin_of_block.get(b, set())
+        for r in rets:
+            j['blocks'][r]['term'] = {'k': 'goto', 'target': retb}
+        blk['term'] = {'k': 'goto', 'target': offB}
+        return True
+
+    def _resolve_fn_trait(self, j, tmp, b, c, chain, origin_of_block):
+        """`f(args)` on a generic `impl Fn*` value that is a closure built in this body (after its generic
+        receiver was inlined here): Fn::call / FnMut::call_mut / FnOnce::call_once (recv, (args..))"""
+        if c.callee not in ('std::ops::Fn::call', 'std::ops::FnMut::call_mut', 'std::ops::FnOnce::call_once') or len(c.args) != 2:
+            return False
+        blk = j['blocks'][b]
+        t = blk['term']
+        o = single_origin(trace_operand(tmp, t['args'][0], through_calls=set()))
+        if o is None or o.proj or o.kind != 'agg' or o.data[2].get('agg') != 'closure':
+            return False
+        g = self.prog.by_id.get(o.data[2]['closure'])
+        if g is None or g.id in chain or g.n > self.max_blocks:
+            return False
+        clo_pl = tmp.blocks[o.data[0]]['stmts'][o.data[1]]['pl']
+        tup = op_place(t['args'][1])
+        if tup is None:
+            return False
+        span = blk['span']
+        direct = t['dest']['l'] if not t['dest']['p'] else None
+        offL, offB, rets = self._copy_in(j, g, chain, origin_of_block, ret_to=direct)
+        env_ty = g.locals[1]['ty'] if g.arg_count >= 1 else ''
+        if g.arg_count >= 1:
+            if env_ty.startswith('&'):
+                blk['stmts'].append(_assign(_pl(offL + 1, ty=env_ty), {'k': 'ref', 'mut': env_ty.startswith('&mut'), 'pl': clo_pl}, span))
+            else:
+                blk['stmts'].append(_assign(_pl(offL + 1, ty=env_ty), _use(_mv(clo_pl)), span))
+        for k in range(2, g.arg_count + 1):
+            src = {'l': tup['l'], 'p': list(tup['p']) + [{'f': k - 2, 'ty': g.locals[k]['ty']}], 'ty': g.locals[k]['ty']}
+            blk['stmts'].append(_assign(_pl(offL + k, ty=g.locals[k]['ty']), _use(_mv(src)), span))
+        retb = len(j['blocks'])
+        j['blocks'].append({'cleanup': False, 'stmts': ([] if direct is not None else [_assign(t['dest'], _use(_mv(_pl(offL, ty=g.locals[0]['ty']))), span)]),
+                            'term': ({'k': 'goto', 'target': t['target']} if t['target'] is not None else {'k': 'unreachable'}), 'span': span})
+        origin_of_block[retb] = origin_of_block.get(b, set())
+        for r in rets:
+            j['blocks'][r]['term'] = {'k': 'goto', 'target': retb}
+        blk['term'] = {'k': 'goto', 'target': offB}
+        return True
+
+    def _skip_rv(self, t, on_skip, recv, adt):
+        def payload(v):
+            return _mv({'l': recv['l'], 'p': list(recv['p']) + [{'dc': v, 'vi': VIDX[v]}, {'f': 0, 'ty': ''}], 'ty': ''})
+        if on_skip.startswith('pass:'):
+            v = on_skip[5:]
+            return _agg(adt, v, [] if v == 'None' else [payload(v)])
+        if on_skip.startswith('arg:'):
+            return _use(t['args'][int(on_skip[4:])])
+        if on_skip.startswith('const:'):
+            return _use({'k': 'const', 'ty': 'bool', 's': 'const ' + on_skip[6:], 'int': 1 if on_skip.endswith('true') else 0})
+        if on_skip.startswith('payload:'):
+            return _use(payload(on_skip[8:]))
+        if on_skip.startswith('okpayload:'):
+            return _agg(RESULT, 'Ok', [payload(on_skip[10:])])
+        return None
+
+    def _apply_opaque(self, j, b, t, spec, recv, adt, variants, origin_of_block):
+        """the callable is a fn item / enum constructor / a closure that is not built here: same case split, the
+        application itself stays a call (or becomes the aggregate the constructor builds)"""
+        kind, payload_variant, clo_arg, on_call, on_skip = spec
+        blk = j['blocks'][b]
+        span = blk['span']
+        fop = t['args'][clo_arg]
+        skip_rv = self._skip_rv(t, on_skip, recv, adt)
+        if skip_rv is None:
+            return False
+        dl = len(j['locals'])
+        j['locals'].append({'ty': 'isize', 'mut': True})
+        R = len(j['locals'])
+        j['locals'].append({'ty': t['dest'].get('ty', '') if on_call == 'use' else '', 'mut': True})
+        P = len(j['locals'])
+        j['locals'].append({'ty': '', 'mut': True})
+        blk['stmts'].append(_assign(_pl(dl, ty='isize'), {'k': 'discr', 'pl': recv}, span))
+        call_variant = payload_variant if payload_variant is not None else ('None' if kind == 'opt' else 'Err')
+        pre = len(j['blocks'])
+        skip, retb = pre + 1, pre + 2
+        pre_stmts = []
+        args = []
+        if payload_variant is not None:
+            src = {'l': recv['l'], 'p': list(recv['p']) + [{'dc': payload_variant, 'vi': VIDX[payload_variant]}, {'f': 0, 'ty': ''}], 'ty': ''}
+            pre_stmts.append(_assign(_pl(P), _use(_mv(src)), span))
+            args = [_mv(_pl(P))]
+        fn = fop.get('fn') if fop['k'] == 'const' else None
+        ctor = fn is not None and '{constructor#' in (fn.get('uid') or '')
+        if ctor:
+            path = fn['def'].rsplit('::', 1)
+            a = self.prog.f.adt_by_name.get(path[0])
+            names = [v['name'] for v in a['variants']] if a else []
+            if not a or path[1] not in names:
+                return False
+            pre_stmts.append(_assign(_pl(R), {'k': 'agg', 'agg': 'adt', 'adt': path[0], 'variant': path[1], 'vi': names.index(path[1]),
+                                              'is_enum': len(names) > 1, 'ops': args}, span))
+            term = {'k': 'goto', 'target': retb}
+        else:
+            term = {'k': 'call', 'func': fop, 'fty': fop.get('ty') or (fop.get('pl') or {}).get('ty', ''), 'args': args, 'arg_tys': ['' for _ in args],
+                    'dest': _pl(R), 'target': retb, 'unwind': 'Continue', 'fn_span': t.get('fn_span', span)}
+        j['blocks'].append({'cleanup': False, 'stmts': pre_stmts, 'term': term, 'span': span})
+        tgt = {'k': 'goto', 'target': t['target']} if t['target'] is not None else {'k': 'unreachable'}
+        j['blocks'].append({'cleanup': False, 'stmts': [_assign(t['dest'], skip_rv, span)], 'term': dict(tgt), 'span': span})
+        retv = _mv(_pl(R))
+        if on_call == 'use':
+            rrv = _use(retv)
+        else:
+            wv = on_call[5:]
+            rrv = _agg(OPTION if wv in ('Some', 'None') else RESULT, wv, [retv])
+        j['blocks'].append({'cleanup': False, 'stmts': [_assign(t['dest'], rrv, span)], 'term': dict(tgt), 'span': span})
+        for x in (pre, skip, retb):
+            origin_of_block[x] = origin_of_block.get(b, set())
+        blk['term'] = {'k': 'switch', 'discr': _mv(_pl(dl, ty='isize')), 'dty': 'isize',
+                       'targets': [[VIDX[call_variant], pre]], 'otherwise': skip}
+        j['inlined'].append('combinator:' + (fn['def'] if fn else 'callable'))
+        return True
+
+
+# ----------------------------------------------------------------------------- jump threading
+TRY_BRANCH = 'std::ops::Try::branch'
+FROM_RESIDUAL = 'std::ops::FromResidual::from_residual'
+_VI = {'Ok': 0, 'Err': 1, 'None': 0, 'Some': 1, 'Continue': 0, 'Break': 1}
+
+
+def _fn_def(t):
+    f = t.get('func') or {}
+    return ((f.get('fn') or {}).get('def')) if isinstance(f, dict) else None
+
+
+def _whole(pl):
+    return pl is not None and not pl['p']
+
+
+def _const_int(op, lconst):
+    if op['k'] == 'const':
+        return op.get('int')
+    if op['k'] in ('move', 'copy') and _whole(op['pl']):
+        return lconst.get(op['pl']['l'])
+    return None
+
+
+def _known_after(blk):
+    """locals holding a Result / Option of statically known variant (and, when constant, payload) at the end of
+    the block: local -> (variant, payload int or None)"""
+    known = {}
+    lconst = {}
+    for s in blk['stmts']:
+        if s['k'] != 'assign':
+            continue
+        pl, rv = s['pl'], s['rv']
+        if not _whole(pl):
+            continue
+        l = pl['l']
+        known.pop(l, None)
+        lconst.pop(l, None)
+        if rv['k'] == 'agg' and rv.get('agg') == 'adt' and rv.get('adt') in (OPTION, RESULT) and rv.get('variant') in _VI:
+            pc = _const_int(rv['ops'][0], lconst) if len(rv['ops']) == 1 else None
+            known[l] = (rv['variant'], pc)
+        elif rv['k'] == 'use':
+            ci = _const_int(rv['op'], lconst)
+            if ci is not None:
+                lconst[l] = ci
+            elif rv['op']['k'] in ('move', 'copy') and _whole(rv['op']['pl']) and rv['op']['pl']['l'] in known:
+                known[l] = known[rv['op']['pl']['l']]
+    t = blk['term']
+    if t['k'] == 'call' and _whole(t.get('dest')):
+        if _fn_def(t) == FROM_RESIDUAL:
+            known[t['dest']['l']] = ('Err', None)
+        else:
+            known.pop(t['dest']['l'], None)
+    return known
+
+
+def _payload_read(pl):
+    """(local, variant) when the place is `(local as Variant).0`"""
+    p = pl['p']
+    if len(p) == 2 and isinstance(p[0], dict) and 'dc' in p[0] and isinstance(p[1], dict) and p[1].get('f') == 0:
+        return pl['l'], p[0]['dc']
+    return None
+
+
+def thread_known_variants(j, max_clones=80, max_len=14):
+    """tail-duplicate the straight-line join between `X = Ok(..)` / `X = Err(..)` and the `?` (or discriminant
+    switch, or switch on a constant payload) that tests X, resolving the switches in each copy.  Pure CFG
+    restructuring: every copy executes the same statements as the original path."""
+    clones = 0
+    changed = True
+    done = set()
+    while changed and clones < max_clones:
+        changed = False
+        for a in range(len(j['blocks'])):
+            A = j['blocks'][a]
+            if A['cleanup'] or a in done:
+                continue
+            if A['term']['k'] == 'goto':
+                start = A['term']['target']
+            elif A['term']['k'] == 'call':
+                start = A['term'].get('target')
+            else:
+                start = None
+            if start is None:
+                continue
+            known = _known_after(A)
+            if not known:
+                continue
+            names = dict(known)      # local -> (variant name, payload const)
+            dvals = {}               # local -> known integer (discriminant or constant payload)
+            path = []                # [(block, resolved successor or None)]
+            cur = start
+            last_resolved = -1
+            while cur is not None and len(path) < max_len and cur not in [p for p, _ in path]:
+                blk = j['blocks'][cur]
+                if blk['cleanup']:
+                    break
+                for s in blk['stmts']:
+                    if s['k'] != 'assign':
+                        continue
+                    pl, rv = s['pl'], s['rv']
+                    if not _whole(pl):
+                        continue
+                    l = pl['l']
+                    nv = dv = None
+                    if rv['k'] == 'discr' and _whole(rv['pl']) and rv['pl']['l'] in names:
+                        dv = _VI[names[rv['pl']['l']][0]]
+                    elif rv['k'] == 'use' and rv['op']['k'] in ('move', 'copy'):
+                        sp = rv['op']['pl']
+                        if _whole(sp):
+                            nv = names.get(sp['l'])
+                            dv = dvals.get(sp['l'])
+                        else:
+                            pr = _payload_read(sp)
+                            if pr and pr[0] in names and names[pr[0]][0] == pr[1] and names[pr[0]][1] is not None:
+                                dv = names[pr[0]][1]
+                    elif rv['k'] == 'use' and rv['op']['k'] == 'const' and rv['op'].get('int') is not None:
+                        dv = rv['op']['int']
+                    elif rv['k'] == 'unop' and rv.get('op') == 'Not' and rv['a']['k'] in ('move', 'copy') and _whole(rv['a']['pl']) \
+                            and rv['a']['pl']['l'] in dvals and rv.get('aty') == 'bool':
+                        dv = 1 - dvals[rv['a']['pl']['l']]
+                    names.pop(l, None)
+                    dvals.pop(l, None)
+                    if nv is not None:
+                        names[l] = nv
+                    if dv is not None:
+                        dvals[l] = dv
+                t = blk['term']
+                if t['k'] == 'switch':
+                    dl = t['discr'].get('pl') if t['discr']['k'] in ('move', 'copy') else None
+                    if _whole(dl) and dl['l'] in dvals:
+                        v = dvals[dl['l']]
+                        hit = [tb for val, tb in t['targets'] if val == v]
+                        nxt = hit[0] if hit else t['otherwise']
+                        path.append((cur, nxt))
+                        last_resolved = len(path) - 1
+                        cur = nxt
+                        continue
+                    break
+                if t['k'] == 'call' and _fn_def(t) == TRY_BRANCH and t['args'] and t['args'][0]['k'] in ('move', 'copy') \
+                        and _whole(t['args'][0]['pl']) and t['args'][0]['pl']['l'] in names and _whole(t['dest']):
+                    v, pc = names[t['args'][0]['pl']['l']]
+                    names[t['dest']['l']] = ('Continue' if v in ('Ok', 'Some') else 'Break', pc)
+                    path.append((cur, None))
+                    cur = t['target']
+                    continue
+                if t['k'] in ('goto', 'drop'):
+                    if t['k'] == 'drop' and _whole(t.get('pl')) and (t['pl']['l'] in names):
+                        break
+                    path.append((cur, None))
+                    cur = t['target']
+                    continue
+                break
+            done.add(a)
+            if last_resolved < 0:
+                continue
+            path = path[:last_resolved + 1]
+            # clone the path
+            base = len(j['blocks'])
+            newid = {p: base + k for k, (p, _) in enumerate(path)}
+            for k, (pth, res) in enumerate(path):
+                nb = copy.deepcopy(j['blocks'][pth])
+                t = nb['term']
+                if res is not None:
+                    nb['term'] = {'k': 'goto', 'target': newid[path[k + 1][0]] if k + 1 < len(path) else res}
+                else:
+                    t['target'] = newid[path[k + 1][0]]
+                j['blocks'].append(nb)
+            A['term']['target'] = newid[start]
+            clones += 1
+            changed = True
+            break
+    return clones
+
+
+def fold_const_switches(j, facts):
+    """a switch on a local whose only definition is a constant (a helper's flag parameter bound to `true` at the
+    inlined call site) becomes a goto"""
+    tmp = Body(j, facts)
+    n = 0
+    for b in sorted(tmp.live_blocks):
+        t = j['blocks'][b]['term']
+        if t['k'] != 'switch':
+            continue
+        o = single_origin(trace_operand(tmp, t['discr'], through_calls=set()))
+        if o is None or o.proj or o.kind != 'const' or not isinstance(o.data, dict) or o.data.get('int') is None:
+            continue
+        v = o.data['int']
+        hit = [tb for val, tb in t['targets'] if val == v]
+        j['blocks'][b]['term'] = {'k': 'goto', 'target': hit[0] if hit else t['otherwise']}
+        n += 1
+    return n
